@@ -3,12 +3,11 @@
 //! `DispatcherDelegate`'s private fields, the token layer is replaced by a mock that emits the lexeme's
 //! raw bytes (what an unmodified token serialises to — the token types have their own harnesses).
 // @requires src/transform_stream/dispatcher/verif_kani_mocks.rs
-use super::verif_kani_mocks::{Ctl, Rec};
+use super::verif_kani_mocks::{Ctl, Rec, CAP};
 use super::*;
 use crate::base::SharedEncoding;
 
 const N: usize = 6; // @thorough 8
-const CAP: usize = 16;
 
 fn delegate(rcs: usize, emission_enabled: bool, fail_end: bool) -> DispatcherDelegate<Ctl, Rec> {
     let mut sink = Rec::new_announced();
@@ -97,7 +96,7 @@ fn c01_dispatcher_tiles_chunk_and_commits_after_token() {
 
 /// C01/C07: with emission disabled (content of a removed element) nothing reaches the sink, but the
 /// bookkeeping advances identically.
-// @verif props=C01,C07,C12,C15 fns=DispatcherDelegate::emit_chunk_before_lexeme,DispatcherDelegate::flush_remaining_input
+// @verif props=C01,C12,C15 fns=DispatcherDelegate::emit_chunk_before_lexeme,DispatcherDelegate::flush_remaining_input
 #[kani::proof]
 #[kani::unwind(10)] // @thorough 12
 fn c01_dispatcher_emission_disabled_emits_nothing() {
@@ -193,7 +192,7 @@ fn c11_bail_out_flush_emits_exactly_the_unemitted_rest() {
 
 /// C12/C13: the sink is told the encoding before its first chunk; a pending meta-charset switch is
 /// announced exactly once, only if it differs, and idempotently.
-// @verif props=C12,C13,C15 fns=Dispatcher::new,Dispatcher::flush_encoding_change
+// @verif props=C12,C15 fns=Dispatcher::new,Dispatcher::flush_encoding_change
 #[kani::proof]
 #[kani::unwind(6)]
 fn c12_encoding_announced_before_data_and_switch_once() {
